@@ -237,7 +237,35 @@ def run_case(case):
     return run_list(case)
 
 
-replay = run_case
+BLOCK = 256
+
+
+def run_block(case):
+    """('blk', start): EVERY Unicode scalar value of one 256-block inside a TEXT value, on the three paths."""
+    _, start, full = case
+    fails, n, nk, outcomes = [], 0, 0, set()
+    for cp in range(start, start + BLOCK):
+        if cp > 0x10FFFF or 0xD800 <= cp <= 0xDFFF:
+            continue
+        c = chr(cp)
+        subs = (("codec", "x" + c + "y"), ("codec", c))
+        if full:
+            subs += (("prop", "SUMMARY", c + "y"), ("prop", "X-TEXT", "x" + c), ("list", "s,x", "a" + c + "b"))
+        for sub in subs:
+            r = run_case(sub)
+            n += 1
+            outcomes.add(r["outcome"])
+            for f in r["fails"]:
+                if f.get("known"):
+                    nk += 1
+                if len(fails) < 6 or not f.get("known"):
+                    fails.append(f)
+    return {"n": n, "traces": n, "trans": 3 * n, "state": (start, tuple(sorted(outcomes)), nk), "nnontrivial": n, "nontrivial": True,
+            "outcome": "block:" + "+".join(sorted(outcomes)), "fails": fails[:12]}
+
+
+def replay(case):
+    return run_block(case) if case[0] == "blk" else run_case(case)
 
 
 def run(ctx):
@@ -249,7 +277,7 @@ def run(ctx):
                 f"property SUMMARY/DESCRIPTION/X-TEXT via Event.add->to_ical->from_ical; CATEGORIES item in shapes "
                 f"{SHAPES}; COMMENT/X-TEXT occurring 2-3 times in one component with empty occurrences, |s|<=3); every other TEXT property name of RFC 5545 at |s|<=2; codec and SUMMARY additionally up to |s|<={kc}; plus core-8 symbols joined by "
                 f"{len(chosen)} pair(s) of 20 other characters incl. non-ASCII blanks, a combining mark, U+FEFF and U+200B (seed-rotated in quick, all 190 pairs in thorough) at "
-                "|s|<=4. non-trivial = s contains a character that escaping changes.")
+                "|s|<=4; plus EVERY Unicode scalar value inside a value on the codec path (both tiers) and on the property and list paths (thorough: all; quick: U+0000..U+0FFF and a seed-rotated eighth of the remaining 256-blocks). non-trivial = s contains a character that escaping changes.")
     ctx.bounds = {"alphabet": [repr(c) for c in CORE], "k_all_paths": k, "k_codec_summary": kc,
                   "extra_pairs": [[repr(a), repr(b)] for a, b in chosen[:3]], "n_extra_pairs": len(chosen)}
     ctx.assumptions += ["a bare CR is not a line break (neither RFC 5545 nor the library's splitter treat it as one)",
@@ -290,7 +318,14 @@ def run(ctx):
             for s in strings(CORE, 2):
                 yield ("prop", n, s)
 
+    def gen_all():
+        # codec: every block in both tiers; property and list paths: every block in thorough, in quick the first 16 blocks
+        # (U+0000..U+0FFF) and a seed-rotated eighth of the others
+        for i, b in enumerate(range(0, 0x110000, BLOCK)):
+            yield ("blk", b, (not ctx.quick) or i < 16 or i % 8 == ctx.seed % 8)
+
     ctx.explore("core-alphabet:all-paths", gen_main, run_case)
+    ctx.explore("every-scalar-value-in-a-text-value", gen_all, run_block)
     ctx.explore("every-TEXT-property-name", gen_names, run_case)
     ctx.explore("repeated-property-with-empty-occurrences", gen_twice, run_case)
     if kc > k:
